@@ -141,6 +141,21 @@ impl OpenOptions {
             return Err(io::Error::new(ErrorKind::Other, format!("Is a directory: {}", p)));
         }
         let writable = self.write || self.append;
+        if writable && is_node_task() {
+            let injected = with(|k| {
+                let n = &mut k.nodes[node as usize];
+                if n.fail_open.as_ref().map(|pat| p.contains(pat.as_str())).unwrap_or(false) {
+                    n.fail_open = None;
+                    k.fault("disk_open_error");
+                    true
+                } else {
+                    false
+                }
+            });
+            if injected {
+                return Err(io::Error::new(ErrorKind::Other, format!("No space left on device (injected): {}", p)));
+            }
+        }
         if !exists {
             if !(self.create || self.create_new) || !writable {
                 return Err(not_found(&p));
